@@ -184,10 +184,13 @@ structure Converted (α γ : Type) where
   catIdx : List Nat
   y : Option (List γ)
 
-/-- `_to_xgboost_input` / `_to_catboost_input` / `_to_lightgbm_input`; `none` = `ValueError`
-    ("The input TensorFrame object is empty") -/
+/-- `_to_xgboost_input` / `_to_catboost_input` / `_to_lightgbm_input`; `none` = raises:
+    `ValueError` ("The input TensorFrame object is empty") when none of the three stypes is present,
+    and — behaviour of the code as it is — `RuntimeError` from `feat.values.view(feat.size(0), -1)`
+    when an embedding block has zero rows (torch cannot infer `-1` for a tensor of 0 elements). -/
 def convert {α γ : Type} (lib : Lib) (f : Frame α γ) : Option (Converted α γ) :=
   let bs := blocks lib f
+  if f.numRows = 0 ∧ f.emb.isSome then none else
   if bs.isEmpty then none else
   some { rows := hcat f.numRows bs, types := featureTypes bs, catIdx := catFeatures 0 bs, y := f.y }
 
